@@ -21,7 +21,7 @@ from dep_logic.markers import AnyMarker, EmptyMarker  # noqa: E402
 
 THEOREMS_BY_PROP = {
     "C11": ["DepLogic.C11.coherent_plain", "DepLogic.C11.coherent_clean", "DepLogic.C11.coherent_reversed",
-            "DepLogic.C11.reversed_canonical", "DepLogic.C11.reversed_canonical_good",
+            "DepLogic.C11.reversed_canonical", "DepLogic.C11.reversed_canonical_good", "DepLogic.C11.exactView_guards", "DepLogic.C11.guard_lexOne",
             "DepLogic.C11.lexOne_of_clean", "DepLogic.M.fromSpecOk_of_lex", "DepLogic.M.pyMergeOk_of_fromSpec",
             "DepLogic.M.normGood_of_lex", "DepLogic.pyNorm_sem", "DepLogic.pad_one", "DepLogic.M.lexPrint_final",
             "DepLogic.M.lexNorm_final", "DepLogic.C02.bridge",
